@@ -2489,6 +2489,10 @@ def run(ck: Ck) -> None:
                       'fixed argument conventions of PIL frombuffer / memoryview.cast / wx.Image / wx.Bitmap, _role (which dimension a local '
                       'derives from); the `if` -> ETest-chain encoding of translate/c15_pixel.py (x < 128 = bit 7 clear, x == c = eight bit '
                       'tests; valid for bytes, cross-checked by the codec correspondence)')
+    ck.trusted.append('translate/c15_frame.py raise_exits (round 5): which statements can be left by an exception (explicit raise, assert, import, every '
+                      'call except isinstance / three-argument getattr, the middle of a multi-element store into the pixel array unless the value is an '
+                      'array("B") or a slice of a pixel array), the composition with the exits of load() at self.load(); MUTATING_CALLS (container '
+                      'methods that count as a store in the census of VTF methods); checks/c15.py reject_alternatives (a rejected call = nothing or load())')
     ck.assumptions += [
         'a shaped view of the pixel array (buffer protocol, PIL) is modelled for non-negative indexes; negative indexes follow the Python '
         'from-the-end convention and stay inside the array',
@@ -2626,6 +2630,8 @@ def run(ck: Ck) -> None:
             ck.explain('instance:save_records')
             ck.explain('instance:example_')
             ck.explain('correspondence:container')
+        if k.startswith(('rejected-call-', 'call-that-must-be-rejected')) and 'copy_frame_of_other_size' in k:
+            ck.explain('instance:whole_array_')      # the copy between frames of different sizes happened (in part) before it was rejected
         if k.startswith(('rejected-call-', 'failed-load-', 'call-that-must-be-rejected')):
             ck.explain('instance:vtf_methods_other_than_init')
             ck.explain('instance:frame_')
